@@ -66,6 +66,7 @@ type l1world struct {
 	nn          *namer
 	hs          map[int]*kv.DB
 	opened      []*kv.DB
+	mutReqs     int
 	conflicts   int
 	in, out     *tw
 	ops         *tw
@@ -112,8 +113,12 @@ func (w *l1world) muts(out *tw, opn, cls string) (getOrder, retireOrder []string
 	}
 	var toks []string
 	seen := map[string]bool{}
+	w.mutReqs = 0
 	for _, r := range log {
 		cl, name := classify(r.key)
+		if r.kind == "P" || r.kind == "D" {
+			w.mutReqs++ // every PUT / DELETE the operation sent, node objects included, answered or not
+		}
 		if r.kind == "G" && (cl == "c" || cl == "m") {
 			if !seen[name] {
 				seen[name] = true
@@ -398,6 +403,10 @@ func (w *l1world) exec(op *kop, hstats map[string]int) (known string, ok bool) {
 		var mo tw
 		getOrder, retire := w.muts(&mo, "[", "]")
 		out.sb.WriteString(mo.String())
+		if op.ro {
+			// C13: a read-only open sends no PUT and no DELETE, whatever it merges
+			out.s("RO:" + strconv.Itoa(w.mutReqs))
+		}
 		o.s("open")
 		o.i(op.h)
 		o.b(op.ro)
@@ -1200,7 +1209,7 @@ func runL1History(g *gen, mode string, nops int, hstats map[string]int, faulty, 
 				op.kind, op.h2 = "dump", 0
 			}
 		}
-		forceVanish := w.faulty && op.kind == "open" && len(op.only) == 0 && len(w.currentRootNodes()) >= 3 && g.r.Intn(2) == 0
+		forceVanish := w.faulty && op.kind == "open" && len(op.only) == 0 && len(w.currentRootNodes()) >= 2 && g.r.Intn(2) == 0
 		if w.faulty && (g.r.Intn(3) == 0 || forceVanish) {
 			var menu []faultSpec
 			switch op.kind {
@@ -1235,11 +1244,12 @@ func runL1History(g *gen, mode string, nops int, hstats map[string]int, faulty, 
 					menu = []faultSpec{{"G", "n", nd, 0, []int{fErr, fGone}[g.r.Intn(2)], false},
 						{"G", "n", nd, 1, []int{fErr, fGone}[g.r.Intn(2)], true}, {"G", "n", nd, 1, []int{fErr, fGone}[g.r.Intn(2)], true}}
 				}
-				if roots := w.currentRootNodes(); len(roots) >= 3 && forceVanish {
-					// three or more versions to merge and one of the first listed ones has vanished
-					// (NoSuchKey under current/ and under merged/): the others must all be merged
-					menu = []faultSpec{{"G", "c", "*", g.r.Intn(len(roots) - 1), fGone, false}}
-					hstats["fault_open_version_vanished_among_3"]++
+				if roots := w.currentRootNodes(); len(roots) >= 2 && forceVanish {
+					// several versions to merge and one of the listed ones has vanished (NoSuchKey under
+					// current/ and under merged/): the others must all be merged; when a single one is
+					// left the opener holds exactly that version and has nothing to publish
+					menu = []faultSpec{{"G", "c", "*", g.r.Intn(len(roots)), fGone, false}}
+					hstats[fmt.Sprintf("fault_open_version_vanished_among_%d", min(len(roots), 3))]++
 				}
 			case "commit":
 				menu = []faultSpec{{"P", "n", "*", 0, fErr, false}, {"P", "c", "*", 0, fErr, false}, {"P", "m", "*", g.r.Intn(2), fErr, false}, {"D", "c", "*", g.r.Intn(2), fErr, false}}
@@ -1262,6 +1272,10 @@ func runL1History(g *gen, mode string, nops int, hstats map[string]int, faulty, 
 					//  hit the tolerant candidate phase or the strict keep phase depending on the order in
 					//  which the implementation's map iteration visits the candidates)
 					menu = append(menu, faultSpec{"G", "n", nd, 0, fErr, true})
+					// the first node DELETE fails, whichever node it is: nothing has been deleted yet and
+					// the version records that name the nodes are still there, so the retry below removes
+					// everything the cutoff covers (no orphaned node objects)
+					menu = append(menu, faultSpec{"D", "n", "*", 0, fErr, false}, faultSpec{"D", "n", "*", 0, fErr, false})
 				}
 			}
 			if len(menu) > 0 {
@@ -1276,6 +1290,11 @@ func runL1History(g *gen, mode string, nops int, hstats map[string]int, faulty, 
 		}
 		if len(op.faults) > 0 || (faulty && g.r.Intn(12) == 0) {
 			w.exec(&kop{kind: "recover", seed: g.r.Int63n(1000000)}, hstats)
+		}
+		if op.kind == "delhist" && len(op.faults) == 1 && op.faults[0].kind == "D" && op.faults[0].class == "n" {
+			w.exec(&kop{kind: "delhist", h: op.h, before: op.before}, hstats)
+			w.exec(&kop{kind: "list"}, hstats)
+			hstats["delhist_retry_after_node_delete_fault"]++
 		}
 		if op.kind == "commit" && w.commitFailed && faulty {
 			// the handle of a failed commit: retry once (finding F-C14-1: the retry reports success
